@@ -253,9 +253,22 @@ def run(chk, tier):
     for c in cls:
         names = [short(b['term']['resolved'] or b['term']['callee']) for b in c['blocks'] if b['term']['k'] == 'call' and not b['cleanup']]
         if names.count('TracerInner::handler') == 1:
-            # the closure is the one handed to Strategy::new
-            good = True
-            chk.ok('O4', 'publish-closure', names)
+            # the closure is the one handed to Strategy::new: on *every* abstract trace it hands the round it was given to handler exactly once
+            e4 = Engine(prog, inline_depth=0)
+            st4 = St()
+            o4 = e4.run(c, [e4.sym_ref(st4, 'env'), e4.sym_ref(st4, 'round')], st4)
+            every = bool(o4)
+            for o_ in o4:
+                hs = [h for h in user_calls(o_, r'TracerInner::handler$')]
+                if o_.kind != 'return' or len(hs) != 1 or vshow(hs[0][7][1]) != 'round':
+                    every = False
+            if every:
+                good = True
+                chk.ok('O4', 'publish-closure', 'handler(round) exactly once on each of %d traces' % len(o4))
+            else:
+                chk.fail('O4', 'publish-closure:every-trace', fn_loc(fri), 'the publish closure of run_internal applies a published round to the shared state only on some paths (%s): snapshots would omit rounds the strategy published' % (
+                    [[(vshow(a)[:60], v) for a, v, _ in o_.st.decisions] for o_ in o4 if len(user_calls(o_, r'TracerInner::handler$')) != 1][:2],), key='O4|publish-closure|conditional')
+                good = True
     if not good:
         chk.fail('O4', 'publish-closure', fn_loc(fri), 'the publish closure of run_internal does not call handler exactly once', key='O4|publish-closure')
     hc = [c for c in cg.callers(fh['path'])]
